@@ -26,6 +26,10 @@ thread_local std::uint64_t tlState = 0;
 // after releasing it (the queued thread runs before this one continues, e.g. before it notifies)
 thread_local int tlHoldCountdown = 0;
 thread_local unsigned tlHoldBeforeUs = 0, tlHoldAfterUs = 0;
+// the n-th upcoming pthread_mutex_lock of this thread is preceded by a pause (the thread is "descheduled"
+// right before it takes the lock, e.g. between engine->close(sid) and the re-lock in connectSync)
+thread_local int tlLockCountdown = 0;
+thread_local unsigned tlLockBeforeUs = 0;
 
 __attribute__((constructor)) void resolve()
 {
@@ -63,9 +67,21 @@ extern "C" void c03_sched_hold_nth(int n, unsigned beforeUs, unsigned afterUs)
   tlHoldAfterUs = afterUs;
 }
 
+extern "C" void c03_sched_hold_lock_nth(int n, unsigned beforeUs)
+{
+  tlLockCountdown = n;
+  tlLockBeforeUs = beforeUs;
+}
+
 extern "C" int pthread_mutex_lock(pthread_mutex_t *m)
 {
   if (!realLock) resolve();
+  if (tlLockCountdown > 0 && !tlBusy && --tlLockCountdown == 0)
+  {
+    tlBusy = true;
+    if (tlLockBeforeUs) usleep(tlLockBeforeUs);
+    tlBusy = false;
+  }
   perturb();
   return realLock(m);
 }
